@@ -298,6 +298,9 @@ func cmdCheck(args []string) int {
 		if r.Err != nil {
 			undecided = append(undecided, fmt.Sprintf("%s: %v", r.Name, r.Err))
 			fmt.Printf("UNDECIDED property=%s function=%s reason=%q\n", *prop, r.Name, firstLineOf(r.Err.Error()))
+			if os.Getenv("VERIF_STACK") != "" {
+				fmt.Println(r.Err.Error())
+			}
 			continue
 		}
 		all := append([]*vc.Obligation{}, r.Obls...)
